@@ -51,3 +51,126 @@ pub fn parse_main(args: &[String]) {
     });
     out(&json!({"summary": true, "cases": cases.len(), "texts": texts_n.into_inner(), "fails": fails.into_inner()}));
 }
+
+// ------------------------------------------------------------------------------------------
+// C08: checker vs evaluator on TLC-generated expressions
+use crate::context::{ContextProps, Feature, TargetAddress};
+use crate::rules::script_ext::create_context;
+use ::milu::script::{Evaluatable, ScriptContextRef, Type, Value};
+use std::sync::Arc;
+
+fn type_json(t: &Type) -> J {
+    match t {
+        Type::String => json!({"k": "str", "e": []}),
+        Type::Integer => json!({"k": "int", "e": []}),
+        Type::Boolean => json!({"k": "bool", "e": []}),
+        Type::Array(a) => json!({"k": "arr", "e": [type_json(a)]}),
+        Type::Tuple(ts) => json!({"k": "tup", "e": ts.iter().map(type_json).collect::<Vec<_>>()}),
+        Type::NativeObject(_) => json!({"k": "native", "e": []}),
+        Type::Any => json!({"k": "any", "e": []}),
+    }
+}
+
+/// force a value: arrays / tuples hold unevaluated members (the language is lazy)
+fn value_json(v: &Value, ctx: &ScriptContextRef, depth: usize) -> J {
+    if depth > 6 {
+        return json!({"t": "deep"});
+    }
+    match v {
+        Value::Integer(i) => json!({"t": "int", "v": i}),
+        Value::Boolean(b) => json!({"t": "bool", "v": b}),
+        Value::String(s) => json!({"t": "str", "v": s}),
+        Value::Array(a) | Value::Tuple(a) => {
+            let items: Vec<J> = a
+                .iter()
+                .map(|m| match m.real_value_of(ctx.clone()) {
+                    Ok(x) => value_json(&x, ctx, depth + 1),
+                    Err(e) => json!({"t": "err", "v": format!("{}", e)}),
+                })
+                .collect();
+            json!({"t": if matches!(v, Value::Array(_)) {"arr"} else {"tup"}, "v": items})
+        }
+        Value::Identifier(s) => json!({"t": "ident", "v": s}),
+        Value::OpCall(_) => json!({"t": "opcall"}),
+        Value::NativeObject(_) => json!({"t": "native"}),
+    }
+}
+
+fn env_props(i: usize) -> Arc<ContextProps> {
+    let mut p = ContextProps::default();
+    match i {
+        0 => {
+            p.listener = "L1".into();
+            p.source = "127.0.0.1:1000".parse().unwrap();
+            p.target = TargetAddress::DomainPort("ex.com".into(), 80);
+            p.request_feature = Feature::TcpForward;
+        }
+        1 => {
+            p.listener = "".into();
+            p.source = "[::1]:65535".parse().unwrap();
+            p.target = "10.0.0.1:0".parse().unwrap();
+            p.request_feature = Feature::UdpForward;
+        }
+        _ => {
+            p.listener = "7".into();
+            p.source = "10.1.2.3:1".parse().unwrap();
+            p.target = "[2001:db8::1]:65535".parse().unwrap();
+            p.request_feature = Feature::TcpForward;
+        }
+    }
+    Arc::new(p)
+}
+
+fn guarded<T>(f: impl FnOnce() -> Result<T, easy_error::Error>) -> Result<T, (bool, String)> {
+    match catch_unwind(AssertUnwindSafe(f)) {
+        Err(e) => Err((true, panic_text(e))),
+        Ok(Err(e)) => Err((false, format!("{}", e).chars().take(120).collect())),
+        Ok(Ok(v)) => Ok(v),
+    }
+}
+
+fn res_json<T>(r: Result<T, (bool, String)>, f: impl FnOnce(T) -> J) -> J {
+    match r {
+        Ok(v) => json!({"ok": f(v)}),
+        Err((true, m)) => json!({"panic": m}),
+        Err((false, m)) => json!({"err": m}),
+    }
+}
+
+/// vh types <cases.ndjson>: each case {id, txt}; output {id, parse, ty, vals[3], filter?}
+pub fn types_main(args: &[String]) {
+    let cases = read_cases(&args[0]);
+    silence_panics();
+    par_for_each(&cases, 16, |_i, c| {
+        let text = c["txt"].as_str().unwrap();
+        let mut o = json!({"id": c["id"]});
+        let parsed = match catch_unwind(AssertUnwindSafe(|| parse(text))) {
+            Err(e) => { o["parse"] = json!({"panic": panic_text(e)}); out(&o); return; }
+            Ok(Err(_)) => { o["parse"] = json!("err"); out(&o); return; }
+            Ok(Ok(v)) => v,
+        };
+        o["parse"] = json!("ok");
+        // load time: the checker as used by Filter::validate / LoadBalance::init / ScriptFormater::new
+        let lctx: ScriptContextRef = create_context(Default::default()).into();
+        let ty = guarded(|| parsed.real_type_of(lctx.clone()));
+        let accepted = ty.is_ok();
+        o["ty"] = res_json(ty, |t| type_json(&t));
+        let mut vals = vec![];
+        if accepted {
+            for i in 0..3 {
+                let rctx: ScriptContextRef = create_context(env_props(i)).into();
+                let r = guarded(|| parsed.real_value_of(rctx.clone()));
+                vals.push(match r {
+                    Ok(v) => {
+                        let forced = catch_unwind(AssertUnwindSafe(|| value_json(&v, &rctx, 0)));
+                        match forced { Ok(j) => json!({"ok": j}), Err(e) => json!({"panic": panic_text(e)}) }
+                    }
+                    Err((true, m)) => json!({"panic": m}),
+                    Err((false, m)) => json!({"err": m}),
+                });
+            }
+        }
+        o["vals"] = J::Array(vals);
+        out(&o);
+    });
+}
